@@ -172,3 +172,65 @@ func CountRange(from Loc, pred func(ssa.Instruction) bool, edgeOK func(b *ssa.Ba
 	}
 	return bestMin[sc], bestMax[sc], true
 }
+
+// LoopOf returns, for each block of fn, the id of the cyclic strongly
+// connected component it belongs to (-1 if the block is not on a cycle).
+func LoopOf(fn *ssa.Function) map[*ssa.BasicBlock]int {
+	index := map[*ssa.BasicBlock]int{}
+	low := map[*ssa.BasicBlock]int{}
+	on := map[*ssa.BasicBlock]bool{}
+	var stack []*ssa.BasicBlock
+	out := map[*ssa.BasicBlock]int{}
+	idx, cid := 0, 0
+	var strong func(v *ssa.BasicBlock)
+	strong = func(v *ssa.BasicBlock) {
+		index[v], low[v] = idx, idx
+		idx++
+		stack = append(stack, v)
+		on[v] = true
+		for _, w := range v.Succs {
+			if _, seen := index[w]; !seen {
+				strong(w)
+				if low[w] < low[v] {
+					low[v] = low[w]
+				}
+			} else if on[w] && index[w] < low[v] {
+				low[v] = index[w]
+			}
+		}
+		if low[v] == index[v] {
+			var comp []*ssa.BasicBlock
+			for {
+				w := stack[len(stack)-1]
+				stack = stack[:len(stack)-1]
+				on[w] = false
+				comp = append(comp, w)
+				if w == v {
+					break
+				}
+			}
+			cyc := len(comp) > 1
+			for _, s := range v.Succs {
+				if s == v {
+					cyc = true
+				}
+			}
+			for _, b := range comp {
+				if cyc {
+					out[b] = cid
+				} else {
+					out[b] = -1
+				}
+			}
+			if cyc {
+				cid++
+			}
+		}
+	}
+	for _, b := range fn.Blocks {
+		if _, seen := index[b]; !seen {
+			strong(b)
+		}
+	}
+	return out
+}
